@@ -413,8 +413,52 @@ fn backing(req: &Value) -> R<Value> {
     Ok(json!({"ok": true, "results": out, "sections": sections_json(&m)}))
 }
 
+/// exprop: derived expression builders, constructors and scalar substitution on real il::Expression
+fn exprop(req: &Value) -> R<Value> {
+    let op = req["op"].as_str().ok_or("op")?;
+    let e = |k: &str| -> R<il::Expression> { ilread::expr(&req[k]) };
+    let r = match op {
+        "sra" => il::Expression::sra(e("lhs")?, e("rhs")?),
+        "rotl" => il::Expression::rotl(e("lhs")?, e("rhs")?),
+        "replace_scalar" => e("expr")?.replace_scalar(&ilread::scalar(&req["scalar"])?, &e("with")?),
+        "add" => il::Expression::add(e("lhs")?, e("rhs")?),
+        "sub" => il::Expression::sub(e("lhs")?, e("rhs")?),
+        "mul" => il::Expression::mul(e("lhs")?, e("rhs")?),
+        "divu" => il::Expression::divu(e("lhs")?, e("rhs")?),
+        "modu" => il::Expression::modu(e("lhs")?, e("rhs")?),
+        "divs" => il::Expression::divs(e("lhs")?, e("rhs")?),
+        "mods" => il::Expression::mods(e("lhs")?, e("rhs")?),
+        "and" => il::Expression::and(e("lhs")?, e("rhs")?),
+        "or" => il::Expression::or(e("lhs")?, e("rhs")?),
+        "xor" => il::Expression::xor(e("lhs")?, e("rhs")?),
+        "shl" => il::Expression::shl(e("lhs")?, e("rhs")?),
+        "shr" => il::Expression::shr(e("lhs")?, e("rhs")?),
+        "ashr" => il::Expression::ashr(e("lhs")?, e("rhs")?),
+        "cmpeq" => il::Expression::cmpeq(e("lhs")?, e("rhs")?),
+        "cmpneq" => il::Expression::cmpneq(e("lhs")?, e("rhs")?),
+        "cmpltu" => il::Expression::cmpltu(e("lhs")?, e("rhs")?),
+        "cmplts" => il::Expression::cmplts(e("lhs")?, e("rhs")?),
+        "zext" => il::Expression::zext(req["bits"].as_u64().ok_or("bits")? as usize, e("lhs")?),
+        "sext" => il::Expression::sext(req["bits"].as_u64().ok_or("bits")? as usize, e("lhs")?),
+        "trun" => il::Expression::trun(req["bits"].as_u64().ok_or("bits")? as usize, e("lhs")?),
+        "ite" => il::Expression::ite(e("cond")?, e("lhs")?, e("rhs")?),
+        "eval" => {
+            return Ok(match falcon::executor::eval(&e("expr")?) {
+                Ok(c) => json!({"ok": true, "value": emit::constant(&c)}),
+                Err(er) => err_json(&er),
+            })
+        }
+        _ => return Err(format!("unknown exprop {}", op)),
+    };
+    Ok(match r {
+        Ok(x) => json!({"ok": true, "expr": emit::expr(&x), "bits": x.bits()}),
+        Err(er) => err_json(&er),
+    })
+}
+
 pub fn dispatch(cmd: &str, req: &Value) -> R<Value> {
     match cmd {
+        "exprop" => exprop(req),
         "arch" => arch(req),
         "fixpoint" => fixpoint(req),
         "cfgedit" => cfgedit(req),
